@@ -246,6 +246,56 @@ REQUESTS = [
 DEFERRED = [[], [("Query", "me"), ("Person", "name"), ("Person", "age"), ("Person", "strict")], [("Person", "pets"), ("Dog", "name"), ("Cat", "lives"), ("Mutation", "a"), ("Mutation", "b")]]
 
 
+HOOKS = ["on_query_start", "on_query_end", "on_parsing_start", "on_parsing_end", "on_validation_start", "on_validation_end",
+         "on_execution_start", "on_execution_end", "on_field_start", "on_field_end"]
+
+
+def partial_members(run):
+    """a member of a combined instrumentation may implement ANY subset of the hooks (the others are inherited no-ops): for a stack made of one full recorder and
+    ten members that implement one hook each - flat, and nested in a second stack - every one-hook member is called exactly as often, and with the same fields,
+    as the full recorder's hook of that name, in member order for starts and reverse order for ends"""
+    from py_gql.execution import Instrumentation, MultiInstrumentation
+    n = 0
+    for shape in ("flat", "nested", "full-last"):
+        for cfg in ("blocking-executor", "executor-blocking", "executor-asyncio"):
+            for query, variables, kind in REQUESTS[:3] + REQUESTS[-6:-4]:
+                log = []
+
+                def rec(tag, hooks):
+                    def mk(h):
+                        if h.startswith("on_field"):
+                            return lambda self, root, context, info: log.append((h, tuple(info.path), tag))
+                        return lambda self: log.append((h, None, tag))
+                    return type("Only_%s" % tag, (Instrumentation,), {h: mk(h) for h in hooks})()
+                full = rec("full", HOOKS)
+                singles = [rec(h, [h]) for h in HOOKS]
+                if shape == "flat":
+                    stack = MultiInstrumentation(full, *singles)
+                elif shape == "nested":
+                    stack = MultiInstrumentation(full, MultiInstrumentation(*singles[:5]), MultiInstrumentation(*singles[5:]))
+                else:
+                    stack = MultiInstrumentation(*(singles + [full]))
+                schema = H.make_schema(asynchronous=cfg == "executor-asyncio")
+                H.run_request(schema, query, variables, {}, cfg, schedule=H.Schedule([]), instrumentation=stack)
+                n += 1
+                for h in HOOKS:
+                    want = [(a, b) for a, b, t in log if t == "full" and a == h]
+                    got = [(a, b) for a, b, t in log if t == h]
+                    if sorted(want, key=repr) != sorted(got, key=repr):
+                        run.violation("hooks:every-member-sees-every-hook", "a member of a %s combined instrumentation that implements only %s saw %d calls where a member implementing "
+                                      "all hooks saw %d (%s, request %r)" % (shape, h, len(got), len(want), cfg, query),
+                                      {"shape": shape, "hook": h, "config": cfg, "query": query}, True)
+                if shape != "nested":
+                    # order between the full recorder and the one-hook member around the same event: starts in member order, ends reversed
+                    for h in HOOKS:
+                        pairs = [(a, b, t) for a, b, t in log if a == h]
+                        first = "full" if (shape == "flat") == h.endswith("_start") else h
+                        for i in range(0, len(pairs) - 1, 2):
+                            if pairs[i][1] == pairs[i + 1][1] and pairs[i][2] != first and cfg != "executor-asyncio":
+                                run.violation("hooks:stacked-order", "in a %s stack %s reached %r before %r" % (shape, h, pairs[i][2], first), {"shape": shape, "hook": h, "config": cfg, "query": query}, True)
+    return n
+
+
 def check(tier, seed):
     run = Run("C16", tier, seed)
     rnd = random.Random(seed)
@@ -273,6 +323,7 @@ def check(tier, seed):
                 run.violation(clause, detail, w, True)
     if n == 0:
         raise MachineryDefect("nothing executed")
+    n += partial_members(run)
     run.cov["evaluations"] = n
     run.cov["distinct_nontrivial"] = len(items)
     run.cov["rule"] = "%d requests (successful, partially failing, syntax / validation / variable / operation-selection errors) x resolver worlds x deferred-field " \
